@@ -118,6 +118,24 @@ fn expect_int(value: &Value, table_name: &str) -> io::Result<i32> {
     }
 }
 
+/// Checks that the given rows hold valid values for the columns of the given
+/// table.
+fn check_rows(table: &Table, rows: &[Vec<Value>]) -> io::Result<()> {
+    for values in rows.iter() {
+        for (column, value) in table.columns().iter().zip(values.iter()) {
+            if !column.is_valid_value(value) {
+                invalid_input!(
+                    "{} is not a valid value for column {:?} of table {:?}",
+                    value,
+                    column.name(),
+                    table.name()
+                );
+            }
+        }
+    }
+    Ok(())
+}
+
 fn is_reserved_table_name(table_name: &str) -> bool {
     table_name == COLUMNS_TABLE_NAME
         || table_name == TABLES_TABLE_NAME
@@ -674,26 +692,20 @@ impl<F: Read + Write + Seek> Package<F> {
         if self.tables.contains_key(&table_name) {
             already_exists!("Table {:?} already exists", table_name);
         }
-        self.insert_rows(
-            Insert::into(COLUMNS_TABLE_NAME).rows(
-                columns
-                    .iter()
-                    .enumerate()
-                    .map(|(index, column)| {
-                        vec![
-                            Value::Str(table_name.clone()),
-                            Value::Int(1 + index as i32),
-                            Value::Str(column.name().to_string()),
-                            Value::Int(column.bitfield()),
-                        ]
-                    })
-                    .collect(),
-            ),
-        )?;
-        self.insert_rows(
-            Insert::into(TABLES_TABLE_NAME)
-                .row(vec![Value::Str(table_name.clone())]),
-        )?;
+        let columns_rows: Vec<Vec<Value>> = columns
+            .iter()
+            .enumerate()
+            .map(|(index, column)| {
+                vec![
+                    Value::Str(table_name.clone()),
+                    Value::Int(1 + index as i32),
+                    Value::Str(column.name().to_string()),
+                    Value::Int(column.bitfield()),
+                ]
+            })
+            .collect();
+        let tables_rows: Vec<Vec<Value>> =
+            vec![vec![Value::Str(table_name.clone())]];
         let validation_rows: Vec<Vec<Value>> = columns
             .iter()
             .map(|column| {
@@ -737,12 +749,28 @@ impl<F: Read + Write + Seek> Package<F> {
                 ]
             })
             .collect();
+        // Before changing anything, make sure that the special tables will
+        // accept the new rows (for example, their columns for table and column
+        // names are narrower than what a valid name can be), so that we never
+        // fail half way through.
         let long_string_refs = self.string_pool.long_string_refs();
+        check_rows(&make_columns_table(long_string_refs), &columns_rows)?;
+        check_rows(&make_tables_table(long_string_refs), &tables_rows)?;
+        check_rows(
+            &make_validation_table(long_string_refs),
+            &validation_rows,
+        )?;
+        self.insert_rows(Insert::into(COLUMNS_TABLE_NAME).rows(columns_rows))?;
+        self.insert_rows(Insert::into(TABLES_TABLE_NAME).rows(tables_rows))?;
         let table = Table::new(table_name.clone(), columns, long_string_refs);
         self.tables.insert(table_name, table);
-        self.insert_rows(
-            Insert::into(VALIDATION_TABLE_NAME).rows(validation_rows),
-        )?;
+        // (A package that was not created by this library may lack the
+        // optional _Validation table.)
+        if self.tables.contains_key(VALIDATION_TABLE_NAME) {
+            self.insert_rows(
+                Insert::into(VALIDATION_TABLE_NAME).rows(validation_rows),
+            )?;
+        }
         Ok(())
     }
 
